@@ -78,10 +78,32 @@ func canonIP(ip []byte) []byte {
 	return ip
 }
 
-// decodeCopy decodes a copy of raw at exact capacity.
+// decodeCopy decodes raw the way a receiver does. Which way is a function of the bytes (so that a replay takes the same
+// one): a copy at exact capacity decoded in place, or one of the copying entry points fed from a read buffer that the
+// caller fills with the next datagram (here: 0x5A) as soon as the call returns - into a Message without storage.
 func decodeCopy(raw []byte) (*stun.Message, error) {
-	m := &stun.Message{Raw: exactSlice(raw, 0)}
-	return m, m.Decode()
+	way := 0
+	for _, b := range raw {
+		way += int(b)
+	}
+	buf := exactSlice(raw, 0)
+	m := new(stun.Message)
+	var err error
+	switch way % 5 {
+	case 0, 1:
+		m.Raw = buf
+		return m, m.Decode()
+	case 2:
+		err = stun.Decode(buf, m)
+	case 3:
+		_, err = m.Write(buf)
+	case 4:
+		err = m.UnmarshalBinary(buf)
+	}
+	for i := range buf {
+		buf[i] = 0x5A
+	}
+	return m, err
 }
 
 func c06Check(k c06Case) (key, detail string) {
